@@ -14,16 +14,17 @@ func init() {
 }
 
 // Log-time layouts (model.go D8). W = wall clock (unix s) when the run starts.
-//   future: log origin W+30d, TTLs of seconds  -> every expiry >= 1 h in the
-//           real future: reads (wall clock) see everything, writes (log time)
-//           meet expired values at chosen instants.
-//   past:   log origin W-30d, TTLs of seconds  -> every expiry >= 3 s in the
-//           real past: reads hide a key as soon as it has an expiry, writes
-//           before the expiry instant in LOG time still build on it. A TTL of
-//           60 d lands at W+30d: alive on both clocks.
-//   local (local_deletion): log origin W-30d; TTLs of seconds are due at the
-//           next checker pass, 2593800 s lands ~30 min in the real future
-//           (inside the checker's one-hour scan window), 60 d far away.
+//
+//	future: log origin W+30d, TTLs of seconds  -> every expiry >= 1 h in the
+//	        real future: reads (wall clock) see everything, writes (log time)
+//	        meet expired values at chosen instants.
+//	past:   log origin W-30d, TTLs of seconds  -> every expiry >= 3 s in the
+//	        real past: reads hide a key as soon as it has an expiry, writes
+//	        before the expiry instant in LOG time still build on it. A TTL of
+//	        60 d lands at W+30d: alive on both clocks.
+//	local (local_deletion): log origin W-30d; TTLs of seconds are due at the
+//	        next checker pass, 2593800 s lands ~30 min in the real future
+//	        (inside the checker's one-hour scan window), 60 d far away.
 const (
 	day          = int64(86400)
 	c10Offset    = 30 * day
@@ -346,7 +347,7 @@ func runC10(c *vc.Ctx) error {
 		return caseSpec{Name: rc.name(), Ops: rc.seq(b), Store: st, BaseWall: wall}
 	})
 	// (3) random sequences
-	nRand := c.Pick(3000, 100000)
+	nRand := c.Pick(3000, 250000)
 	cp.run(nRand, func(i int) caseSpec {
 		r := c.Rand(10*1000003 + int64(i))
 		switch i % 3 {
@@ -375,7 +376,7 @@ func runC10(c *vc.Ctx) error {
 	ev.Set("log_time_layouts", map[string]string{"future": "log origin = wall+30d, TTL seconds", "past": "log origin = wall-30d, TTL seconds (60d = alive on both clocks)", "local": "local_deletion, log origin = wall-30d; TTL seconds are due, 30d+30min is ~30 min ahead, 60d far"})
 	ev.Assume("engines mem and pebble only; neither implements SetCompactionFilter, so the compaction filter (rockCompactFilter.Filter) is executed through the hook VerifRunCompactFilter, which applies its decisions to every key like a full RocksDB compaction would")
 	ev.Assume("a read is judged only while the key's expiry is >= 3 s in the real past or >= 1 h in the real future (the generator guarantees it; a stalled run stops the sequence instead of judging)")
-	ev.Assume("HCLEAR consults the wall clock (HLen) inside the write path: when log time and wall clock disagree about the hash being expired its reply is not judged and the sequence ends there (model.go D8)")
+	ev.Assume("ZFIXKEY (repair command) compares a size read with the log time against ZRange, which filters with the wall clock: when the two clocks disagree about the set being expired its effect is not judged and the sequence ends there (model.go D8)")
 	ev.Assume("under local_deletion a key whose expire record is due may or may not be gone after a checker pass (the documentation promises no promptness); the model adopts what it observes for due keys only")
 	ev.Assume("the input classes with known conformance deviations (C08) are not generated here")
 	return nil
